@@ -384,7 +384,7 @@ func (x *rtCtxs) cancelAll() {
 
 func runC04(w *mon.Worker) {
 	mon.SetMaxSleep(150 * time.Microsecond)
-	for i := 0; i < w.Share(w.Scale(1600, 50000)); i++ {
+	for i := 0; i < w.Share(w.Scale(2400, 60000)); i++ {
 		mon.SetProb(0.2, verifhook.BcastEnter, verifhook.BcastExit, verifhook.RoutineExecStart, verifhook.RoutineExecCall, verifhook.RoutineExecDone, verifhook.RoutineTimer)
 		state, retry := i%2 == 1, i%5 == 0
 		w.Case("bursts", map[string]any{"state": state, "retry": retry}, func(c *mon.Case) { c04BurstCase(c, state, retry) })
@@ -581,7 +581,7 @@ func c04GatedCase(c *mon.Case, state bool) {
 func runC05(w *mon.Worker) {
 	mon.SetMaxSleep(150 * time.Microsecond)
 	mon.SetProb(0.2, verifhook.BcastEnter, verifhook.BcastExit, verifhook.RoutineExecStart, verifhook.RoutineExecCall, verifhook.RoutineExecDone, verifhook.RoutineTimer)
-	for i := 0; i < w.Share(w.Scale(1600, 50000)); i++ {
+	for i := 0; i < w.Share(w.Scale(3200, 80000)); i++ {
 		state, retry, concurrent := i%3 != 0, i%4 == 0, i%5 != 0
 		w.Case("survivor", map[string]any{"state": state, "retry": retry, "concurrent": concurrent}, func(c *mon.Case) { c05Case(c, state, retry, concurrent) })
 	}
@@ -948,7 +948,7 @@ func c14Case(c *mon.Case, state, retry bool) {
 		}
 		if last != nil && last.exit.Load() != 0 {
 			for _, o := range opRecs {
-				if o.stamp > last.pre && (o.restartClass || o.setClass || o.ctxChange) {
+				if o.ret > last.pre && (o.restartClass || o.setClass || o.ctxChange) {
 					// something happened since that exit which this observation does not reflect
 					return status{kind: "unknown", inst: last}
 				}
